@@ -42,8 +42,12 @@ def parse_trace(path):
 def quoted(args):
     return [bytes(s, "utf-8").decode("unicode_escape").encode("latin-1").decode("utf-8", "replace") for s in re.findall(r'"((?:[^"\\]|\\.)*)"', args)]
 
+def unesc(s):
+    try: return bytes(s, "utf-8").decode("unicode_escape").encode("latin-1").decode("utf-8", "replace")
+    except Exception: return s
+
 def fd_paths(text):
-    return re.findall(r"\d+<(/[^>]*)>", text)
+    return [unesc(p) for p in re.findall(r"\d+<(/[^>]*)>", text)]
 
 def targets_of(call, args, res, cwd):
     """kernel-level targets (absolute paths) this mutating call writes to; [] if it does not mutate"""
